@@ -172,5 +172,36 @@ def lengthsOK (segs : List Seg) : Bool := (segs.foldl lenStep (some FitFormat.De
 
 def flat (segs : List Seg) : Bytes := segs.flatMap (·.bytes)
 
+/-! ### WHERE each kind of segment sits (the order the protocol prescribes: header, records, CRC, header, …) -/
+
+/-- state of the walk over the reported segments: between sequences, or inside one whose header announced `dataSize`
+bytes of records, `used` of which have been reported -/
+inductive Pos
+  | outside
+  | inside (dataSize used : Nat)
+  deriving DecidableEq, Repr
+
+/-- one step: a file header may only come between sequences (its data size — read by the independent
+`FitFormat.parseHeader` — opens a sequence); a definition or data record only while the records reported so far fall
+short of the data size (the last one may overrun it, as in the decoder); the CRC segment exactly when they have reached
+it — not earlier, not after a further record — and it closes the sequence. -/
+def posStep (st : Option Pos) (s : Seg) : Option Pos :=
+  match st with
+  | none => none
+  | some .outside =>
+    if s.flag = rawFlagFileHeader then (FitFormat.parseHeader s.bytes).map fun h => .inside h.dataSize 0 else none
+  | some (.inside ds used) =>
+    if s.flag = rawFlagMesgDef ∨ s.flag = rawFlagMesgData then
+      if used < ds then some (.inside ds (used + s.bytes.length)) else none
+    else if s.flag = rawFlagCRC then
+      if ds ≤ used then some .outside else none
+    else none
+
+/-- every segment sits where the protocol prescribes -/
+def layoutOK (segs : List Seg) : Bool := (segs.foldl posStep (some .outside)).isSome
+
+/-- … and the series ends between two sequences (what a run without error reports) -/
+def layoutClosed (segs : List Seg) : Bool := segs.foldl posStep (some .outside) == some .outside
+
 
 end Fit.Raw
